@@ -2,7 +2,7 @@
    out.  Used by the extracted runner and by vm_compute replays. *)
 From Coq Require Import String.
 From SQLair.Base Require Import Bytes Sexp.
-From SQLair.Model Require Import Parser ParserDump.
+From SQLair.Model Require Import Parser ParserDump Reflect TypeInfo Bind BindDump Iter IterDump.
 
 Definition run_request (req : list sexp) : str :=
   match req with
@@ -13,6 +13,21 @@ Definition run_request (req : list sexp) : str :=
         | None => lit "BAD-REQUEST hex"
         end
       else lit "BAD-REQUEST command"
+  | [SList [Atom cmd; Atom q; SList types; SList samples; SList args]] =>
+      if str_eqb cmd (lit "bind") then
+        match unxhex q, omap dec_tdef types, omap dec_sample samples, omap dec_arg args with
+        | Some input, Some env, Some ss, Some as_ => run_bind input env ss as_
+        | None, _, _, _ => lit "BAD-REQUEST hex"
+        | _, None, _, _ => lit "BAD-REQUEST types"
+        | _, _, None, _ => lit "BAD-REQUEST samples"
+        | _, _, _, None => lit "BAD-REQUEST args"
+        end
+      else lit "BAD-REQUEST command"
+  | [SList l] =>
+      match run_iter_line l with
+      | Some out => out
+      | None => lit "BAD-REQUEST shape"
+      end
   | _ => lit "BAD-REQUEST shape"
   end.
 
